@@ -13,7 +13,7 @@
     Specification: Time/Civil.v (proleptic Gregorian day count by the leap-year rule; independent of the
     algorithm) and Time/Rfc3339.v (the printed form, byte order). *)
 From Coq Require Import ZArith List.
-From TV Require Import Time.Civil Time.Rfc3339 Time.Musl Time.CivilProofs Time.MuslProofs Time.DisplayProofs.
+From TV Require Import Time.Civil Time.Rfc3339 Time.Musl Time.CivilProofs Time.MuslProofs Time.DisplayProofs Time.SandwichProofs.
 Import ListNotations.
 Local Open Scope Z_scope.
 
@@ -215,6 +215,57 @@ Proof.
   cbn. intros [H|[H _]]; discriminate H.
 Qed.
 Print Assumptions C20_monotone_needs_year_range.
+
+(** ** The default-configuration leg (the clock is not controlled there): a default-built `fmt` layer prints a
+    record between two clock reads t0 <= t1; the check demands that the printed timestamp lies bytewise between the
+    model's texts of t0 and t1.  [C20_window_sandwich]: that demand is met by the text of every instant of the
+    window (no false alarm).  [C20_printed_determines_instant] and [C20_window_tight]: inside 0000..9999 the text
+    determines the instant to the microsecond, hence a text of any instant that meets the demand is the text of
+    an instant of the window at the printed resolution (the demand is as strong as six digits allow). *)
+Theorem C20_window_sandwich : forall md, md = release \/ md = debug ->
+  forall s0 n0 s n s1 n1 o0 o o1,
+  valid_systemtime s0 n0 -> valid_systemtime s n -> valid_systemtime s1 n1 ->
+  in_rfc_range s0 -> in_rfc_range s1 ->
+  (s0 < s \/ (s0 = s /\ n0 <= n)) -> (s < s1 \/ (s = s1 /\ n <= n1)) ->
+  format_system_time md s0 n0 = Some o0 -> format_system_time md s n = Some o ->
+  format_system_time md s1 n1 = Some o1 ->
+  lex_le o0 o /\ lex_le o o1.
+Proof. exact sandwich. Qed.
+Print Assumptions C20_window_sandwich.
+
+Theorem C20_printed_determines_instant : forall md, md = release \/ md = debug ->
+  forall s1 n1 s2 n2 o,
+  valid_systemtime s1 n1 -> valid_systemtime s2 n2 -> in_rfc_range s1 -> in_rfc_range s2 ->
+  format_system_time md s1 n1 = Some o -> format_system_time md s2 n2 = Some o ->
+  s1 = s2 /\ n1 / 1000 = n2 / 1000.
+Proof. exact printed_determines_instant. Qed.
+Print Assumptions C20_printed_determines_instant.
+
+Theorem C20_window_tight : forall md, md = release \/ md = debug ->
+  forall s0 n0 s n s1 n1 o0 o o1,
+  valid_systemtime s0 n0 -> valid_systemtime s n -> valid_systemtime s1 n1 ->
+  in_rfc_range s0 -> in_rfc_range s -> in_rfc_range s1 ->
+  format_system_time md s0 n0 = Some o0 -> format_system_time md s n = Some o ->
+  format_system_time md s1 n1 = Some o1 ->
+  lex_le o0 o -> lex_le o o1 ->
+  us_le s0 n0 s n /\ us_le s n s1 n1.
+Proof. exact sandwich_tight. Qed.
+Print Assumptions C20_window_tight.
+
+Example C20_window_nonvacuous :
+  valid_systemtime 1790000000 999 /\ valid_systemtime 1790000000 1000 /\ valid_systemtime 1790000001 0 /\
+  in_rfc_range 1790000000 /\ in_rfc_range 1790000001 /\
+  (exists o0 o o1, format_system_time debug 1790000000 999 = Some o0 /\ format_system_time debug 1790000000 1000 = Some o /\
+                   format_system_time debug 1790000001 0 = Some o1 /\ o0 <> o /\ lex_le o0 o /\ lex_le o o1) /\
+  us_le 1790000000 999 1790000000 1000 /\ ~ us_le 1790000000 1000 1790000000 999.
+Proof.
+  unfold valid_systemtime, in_rfc_range, I64_MIN, I64_MAX, NANOS_PER_SEC, YEAR0_SECS, YEAR10000_SECS, us_le.
+  repeat split; try discriminate; try (vm_compute; reflexivity).
+  - eexists. eexists. eexists. split; [vm_compute; reflexivity|]. split; [vm_compute; reflexivity|].
+    split; [vm_compute; reflexivity|]. split; [discriminate|]. split; vm_compute; intuition (try discriminate; auto).
+  - right. split; [reflexivity|]. vm_compute. discriminate.
+  - intros [H|[_ H]]; [revert H|revert H]; vm_compute; intros H; try discriminate H; apply H; reflexivity.
+Qed.
 
 (** ** The translators recognised every constant and every statement they were asked for (fail closed otherwise:
     an unrecognised source makes every generated function the constant None and this list non-empty). *)
